@@ -9,6 +9,10 @@ import (
 )
 
 func (e *kvElection) watchLoop(ctx context.Context) {
+	// updates stays nil (never ready) when there is no watch subscription: the periodic check
+	// below keeps running, so a follower without notifications still finds a vacancy or a
+	// change of leader instead of giving up for good
+	var updates <-chan Entry
 	watcher, err := e.kv.Watch(e.key)
 	if err != nil {
 		log := e.getLogger()
@@ -18,16 +22,17 @@ func (e *kvElection) watchLoop(ctx context.Context) {
 				zap.String("key", e.key),
 			)...,
 		)
-		return
-	}
-	defer watcher.Stop()
+	} else {
+		defer watcher.Stop()
+		updates = watcher.Updates()
 
-	log := e.getLogger()
-	log.Debug("watch_started",
-		append(e.logWithContext(ctx),
-			zap.String("key", e.key),
-		)...,
-	)
+		log := e.getLogger()
+		log.Debug("watch_started",
+			append(e.logWithContext(ctx),
+				zap.String("key", e.key),
+			)...,
+		)
+	}
 
 	checkTicker := time.NewTicker(500 * time.Millisecond)
 	defer checkTicker.Stop()
@@ -36,7 +41,7 @@ func (e *kvElection) watchLoop(ctx context.Context) {
 		select {
 		case <-ctx.Done():
 			return
-		case entry, ok := <-watcher.Updates():
+		case entry, ok := <-updates:
 			if !ok {
 				log := e.getLogger()
 				log.Debug("watch_closed",
@@ -47,7 +52,9 @@ func (e *kvElection) watchLoop(ctx context.Context) {
 				if !e.IsLeader() {
 					go e.checkKeyAndReelect(ctx)
 				}
-				return
+				// No more notifications from this subscription; carry on with the periodic check
+				updates = nil
+				continue
 			}
 			e.handleWatchEvent(entry)
 		case <-checkTicker.C:
